@@ -269,6 +269,7 @@ enum { PM_SUF_NONE, PM_SUF_DOT, PM_SUF_MAP, PM_SUF_LIST };
 
 typedef struct pm_desc {
     int malformed;
+    int huge;			/* malformed because an index exceeds int */
     int nel;
     struct {
 	int type;
@@ -341,10 +342,20 @@ static void pm_parse(const char *s, pm_desc *d)
 		d->el[d->nel].type = PM_APP;
 		++p;
 	    } else if (isdigit((unsigned char)*p)) {
-		int v = 0;
-		while (isdigit((unsigned char)*p))
-		    v = v * 10 + (*p++ - '0');
-		d->el[d->nel].idx = v;
+		long long v = 0;
+		while (isdigit((unsigned char)*p)) {
+		    if (v <= 2147483647LL)
+			v = v * 10 + (*p - '0');
+		    ++p;
+		}
+		if (v > 2147483647LL) {
+		    /* an index no list can have: the document refuses it in
+		       every entry point (drivers accept EINVAL and ENOENT) */
+		    d->malformed = 1;
+		    d->huge = 1;
+		    return;
+		}
+		d->el[d->nel].idx = (int)v;
 		d->el[d->nel].type = PM_IDX;
 		if (*p == '+') {
 		    d->el[d->nel].type = PM_INS;
@@ -546,6 +557,18 @@ static int pm_set(pm_node **root, const char *arg, int *err, int *loose)
 	*err = PM_EINVAL;
 	*loose = 1;
 	return -1;
+    }
+    if (d.rest[0] == '#') {
+	/* "an argument of the form descriptor#": nothing but blanks may
+	   follow */
+	const char *q = d.rest + 1;
+	while (*q != '\0' && isspace((unsigned char)*q))
+	    ++q;
+	if (*q != '\0') {
+	    *err = PM_EINVAL;
+	    *loose = 1;
+	    return -1;
+	}
     }
     pm_free(*slot);
     *slot = d.rest[0] == '=' ? pm_scalar(d.rest + 1) : NULL;
